@@ -65,6 +65,34 @@ func expectedACEH(c Cfg) string {
 	return strings.Join(names, ",")
 }
 
+// sameNameSet compares the names listed in the field lines v with the
+// comma-separated list want as case-insensitive sets; safelisted
+// response-header names, which are exposed anyway, do not count. How the
+// names are joined, ordered or cased is not documented.
+func sameNameSet(v []string, want string) bool {
+	set := func(lines []string) map[string]bool {
+		out := map[string]bool{}
+		for _, l := range lines {
+			for _, el := range strings.Split(l, ",") {
+				if n := lower(strings.Trim(el, " \t")); n != "" && !safelistedResHdr[n] {
+					out[n] = true
+				}
+			}
+		}
+		return out
+	}
+	a, b := set(v), set([]string{want})
+	if len(a) != len(b) {
+		return false
+	}
+	for n := range a {
+		if !b[n] {
+			return false
+		}
+	}
+	return true
+}
+
 func expectedACMA(c Cfg) []string {
 	switch {
 	case c.MaxAge == -1:
@@ -186,8 +214,8 @@ func c03Invariants(c Cfg, model OriginModel, debug bool, r Req, resp Resp) *Disc
 	if v, ok := H[hACMA]; ok && !eqStrs(v, expectedACMA(c)) {
 		return discf("(5) ACMA %q, configured rendering %q: %s", v, expectedACMA(c), where())
 	}
-	if v, ok := H[hACEH]; ok && !eq1(v, expectedACEH(c)) {
-		return discf("(5) ACEH %q, configured normal form %q: %s", v, expectedACEH(c), where())
+	if v, ok := H[hACEH]; ok && !sameNameSet(v, expectedACEH(c)) {
+		return discf("(5) ACEH %q does not carry exactly the configured names %q (compared as a case-insensitive set, safelisted names aside): %s", v, expectedACEH(c), where())
 	}
 	if v, ok := H[hACAPN]; ok && (!eq1(v, "true") || !(c.PNA || c.PNANoCORS)) {
 		return discf("(5) ACAPN %q although private-network access is %v: %s", v, c.PNA || c.PNANoCORS, where())
